@@ -588,8 +588,8 @@ Definition apply_indexed (s : est) (use_clean : bool) (start : nat) (target new 
 (* ---------- heuristic path ---------- *)
 Fixpoint find_sub (needle s : str) (i : nat) : option nat :=
   if prefixb needle s then Some i else match s with [] => None | _ :: s' => find_sub needle s' (S i) end.
-(* find_match_index: the exact stage is modelled; the later stages (smart quotes, Markdown-stripped target, fuzzy regex) are
-   answered by the oracle list (the implementation's own answers for the calls whose exact stage failed, in call order) *)
+(* find_match_index: the exact stage and the smart-quote stage are modelled; the later stages (Markdown-stripped target, fuzzy
+   regex) are answered by the oracle list (the implementation's own answers for the calls whose first two stages failed, in call order) *)
 Definition fm := option (nat * nat).
 (* an occurrence counts only when it touches text of the document itself (a span with a run): generated text (comment and change
    metadata, style markers, paragraph separators) is part of the projection but resolves to no run (fix D54); and when it does not
@@ -601,10 +601,21 @@ Fixpoint find_real (sp : list ospan) (needle s : str) (i : nat) : option nat :=
   if prefixb needle s && touches_real sp i (i + length needle) then Some i
   else match s with [] => None | _ :: s' => find_real sp needle s' (S i) end.
 Definition find_on (sp : list ospan) (needle : str) : option nat := find_real sp needle (map_text sp) 0.
+(* stage 2, smart-quote normalisation: typographic quotes made plain in text and target alike (one character for one, so positions
+   are those of the text itself); the same first-occurrence-on-document-text rule; the length reported is the target's *)
+Definition qn (c : char) : char :=
+  if N.eqb c 8220 || N.eqb c 8221 then 34%N else if N.eqb c 8216 || N.eqb c 8217 then 39%N else c.
+Definition find_quote (sp : list ospan) (needle : str) : option nat := find_real sp (map qn needle) (map qn (map_text sp)) 0.
+(* the answer of the stages after the exact one: the quote stage (modelled), else the recorded answer of stages 3-4 *)
+Definition approx (sp : list ospan) (target : str) (orc : list fm) : fm * list fm :=
+  match find_quote sp target with
+  | Some i => (Some (i, length target), orc)
+  | None => match orc with a :: r => (a, r) | [] => (None, []) end
+  end.
 Definition find_match (sp : list ospan) (target : str) (orc : list fm) : fm * list fm :=
   match find_on sp target with
   | Some i => (Some (i, length target), orc)
-  | None => match orc with a :: r => (a, r) | [] => (None, []) end
+  | None => approx sp target orc
   end.
 
 (* raw-view match; when it is not exact, an exact accepted-view match wins (fix D44), then the raw-view approximate
@@ -613,7 +624,7 @@ Definition locate (s : est) (target : str) (orc : list fm) : fm * bool * est * l
   match find_on (s_raw s) target with
   | Some i => (Some (i, length target), false, s, orc)
   | None =>
-    let '(m1, orc1) := match orc with a :: r => (a, r) | [] => (None, []) end in
+    let '(m1, orc1) := approx (s_raw s) target orc in
     let cmc := match s_clean s with Some _ => s_cmc s | None => d_comments (e_doc (s_eng s)) end in
     let cm := match s_clean s with Some c => c | None => build_map true cmc (e_doc (s_eng s)) end in
     let s' := {| s_eng := s_eng s; s_raw := s_raw s; s_clean := Some cm; s_cm0 := s_cm0 s; s_cmc := cmc; s_xp := s_xp s |} in
